@@ -1,5 +1,6 @@
 import Verif.Model.Cert
 import Verif.Proofs.Cert
+import Verif.Proofs.Bisim
 
 /-!
 # C01 — Flatten preserves the meaning of the API (verified validator)
@@ -29,6 +30,16 @@ theorem validated_start_pairs (b1 b2 : Bundle) (hops : Nat) (R : Rel) (start : L
   intro pq hpq
   rw [List.all_eq_true] at hs
   exact cert_sound b1 b2 hops R h pq.1 pq.2 (hs pq hpq)
+
+/-- the same argument for a relation given as a predicate (possibly infinite), with separate bounds
+    on the two sides for following `$ref` chains: if every related pair steps — after following
+    `$ref`s — to nodes that agree locally and whose corresponding children are related again, related
+    positions have the same unfolding at every depth.  This is the proof principle for meaning
+    preservation of a single rewrite (a naming move adds one `$ref` hop on the rewritten side). -/
+theorem bisim_sound (b1 b2 : Bundle) (h1 h2 : Nat) (R : Pos → Pos → Prop)
+    (h : ∀ p q, R p q → Proofs.Bisim.StepOK b1 b2 h1 h2 R p q) :
+    ∀ n p q, R p q → unfold b1 h1 n p = unfold b2 h2 n q :=
+  Proofs.Bisim.bisim_sound b1 b2 h1 h2 R h
 
 /-- non-vacuity: a recursive definition `A = {p: $ref A}` and its one-step unrolling
     `B = {p: {p: $ref B}}` are related by an accepted two-pair certificate -/
